@@ -307,6 +307,22 @@ func (h *harness) buildCase(name string) corr.Case {
 	return cs
 }
 
+// checkServerDecode: whatever the clients of the harness send is well formed and sent once: the server has
+// nothing to complain about (an SRTP authentication or replay failure means that what left the client is
+// not what was written). Injected duplication / reordering on the publisher hop may trip replay protection.
+func (h *harness) checkServerDecode(c *corr.Ctx) {
+	sc := h.sc
+	h.mu.Lock()
+	n, errs := h.nSrvDecode, append([]string{}, h.srvDecode...)
+	h.mu.Unlock()
+	if n == 0 || sc.PubDup > 0 || sc.PubReorder > 0 {
+		return
+	}
+	c.Violate(corr.Violation{Property: "C01", Clause: "every packet a client sends is decoded by the server session", Key: "c01-server-decode-error",
+		Where: "client (publisher / back channel) → transport → server session", Input: sc,
+		Detail: fmt.Sprintf("the server reported %d decode errors: %v", n, errs)})
+}
+
 // backSetupOp: the reader's SETUP of the back channel media (the last media of the model's description).
 func (h *harness) backSetupOp(rd *reader, key float64, add func(float64, string, string)) {
 	if !rd.spec.Back || h.backMedia == nil {
@@ -657,6 +673,9 @@ func (h *harness) checkProperty(c *corr.Ctx) {
 						break
 					}
 				}
+			} else if d := rd.backSet.list(); len(d) > 0 {
+				viol("every accepted packet is sent once, as written", "c01-back-sent-twice",
+					fmt.Sprintf("%s back channel: the client's socket sent the same datagram twice: %v", who, d))
 			} else if sent := int(rd.backSent.Load()); sent < len(acc) {
 				viol("a packet accepted by WritePacketRTP is sent", "c01-back-not-sent",
 					fmt.Sprintf("%s back channel: %d packets accepted by WritePacketRTP, %d datagrams left the client's socket", who, len(acc), sent))
@@ -687,6 +706,10 @@ func (h *harness) checkRelay(c *corr.Ctx) {
 		c.Violate(corr.Violation{Property: "C01", Clause: clause, Key: key, Where: "recording client → client queue → transport → server session callback", Input: sc, Detail: detail})
 	}
 	who := "publisher (" + sc.Relay + ")"
+	if d := h.pubSet.list(); len(d) > 0 {
+		viol("every accepted packet is sent once, as written", "c01-relay-sent-twice",
+			fmt.Sprintf("%s: the client's socket sent the same datagram twice: %v", who, d))
+	}
 	if h.rawPub != nil {
 		if a, b, bad := overlap(h.rawPub.chans); bad {
 			viol("the interleaved channel pairs announced in the SETUP responses of one session do not overlap", "c01-channel-overlap",
